@@ -81,7 +81,10 @@ pub fn cli_main() {
             },
         }
     }
-    let rep = (p.run)(&ctx);
+    let mut rep = (p.run)(&ctx);
+    if tier == Tier::Thorough && std::env::var("HV_NO_FUZZ").is_err() {
+        props::run_fuzz(&ctx, &mut rep);
+    }
     let code = engine::finish(&ctx, rep);
     std::process::exit(code);
 }
